@@ -20,7 +20,7 @@ func TestC09Deployed(t *testing.T) {
 		vstat.Case()
 		h := newHistRec()
 		want := 0
-		run, msg := sysbind.DriveDeployed(t, sysbind.DeployedDriveOpts{MinClients: 1, MaxClients: 3, StepChoices: []int{800, 1500, 3000},
+		run, msg := sysbind.DriveDeployed(t, sysbind.DeployedDriveOpts{MinClients: 1, MaxClients: 3, MaxOps: 8, StepChoices: []int{800, 1500, 3000},
 			OnCommit: func(run *sysbind.DeployedRun, in *sched.Instance, st sched.Step) string {
 				return h.onCommit(run.D.NodeOf(in), run.StepNo, st, func(node int) int { return int(run.D.View().Shadow[node-1]["currentTerm"].AsNumber()) })
 			},
